@@ -398,7 +398,7 @@ class CropCorr(Corr):
 
     def cases(self, tier, rng):
         out = []
-        n_rand = 60 if tier == "quick" else 500
+        n_rand = 60 if tier == "quick" else 400
         npts = 150 if tier == "quick" else 600
         # regression / documentation witnesses first: the repository's own unit-test prisms
         unit = [(0.0, 0.0), (0.2, 0.0), (0.2, 0.2), (0.0, 0.2)]
@@ -440,6 +440,12 @@ class CropCorr(Corr):
                 area = [[x, y, 1.0] for x, y in ring] + [[x, y, -1.0] for x, y in ring]
                 cloud = gen_cloud(rng, 120, [fr], (-2, 6), (-2, 6), z_values(-1.0, 1.0), ncols, vertex_level_points(rng, fr, (-2, 6), (-2, 6)))
                 out.append({"kind": nm, "ncols": ncols, "simple": False, "area": area, "cloud": cloud, "margin_ok": True})
+        # the uint8 wrap witness of Props/C12.v (C12_general_polygon_uint8_refuted): 256 windings -> counter 0 -> "outside"
+        for n in (255, 256):
+            ring = sq * n
+            out.append({"kind": f"wound_{n}", "ncols": 3, "simple": False, "margin_ok": True,
+                        "area": [[x, y, 1.0] for x, y in ring] + [[x, y, 0.0] for x, y in ring],
+                        "cloud": [[1.0, 1.0, 0.5], [3.0, 3.0, 0.5], [5.0, 1.0, 0.5], [1.0, 1.0, 2.0]]})
         # malformed: too few vertices, odd length, too few columns
         sq3 = [[x, y, 0.0] for x, y in sq]
         for area, ncols, cloud in (([], 3, [[0.0, 0.0, 0.0]]), (sq3, 3, [[1.0, 1.0, 0.0]]), (sq3[:3] + sq3[:2], 3, [[1.0, 1.0, 0.0]]),
@@ -541,7 +547,7 @@ def box_cloud(rng, boxes_k, n, ncols, zs=None):
     for bx, k in boxes_k:
         ring, zlo, zhi = box_footprint(bx, k)
         rings.append(ring)
-    xr, yr = window(rings, 2)
+    xr, yr = window(rings, 1)
     if zs is None:
         bx = boxes_k[0][0]
         zs = z_values(bx["pos"][2] - bx["size"][2] / 2, bx["pos"][2] + bx["size"][2] / 2)
@@ -559,8 +565,8 @@ class BoxCorr(Corr):
 
     def cases(self, tier, rng):
         out = []
-        n_rand = 110 if tier == "quick" else 640
-        npts = 200 if tier == "quick" else 800
+        n_rand = 110 if tier == "quick" else 560
+        npts = 200 if tier == "quick" else 600
         combos = [("yaw", wz) for wz in YAW_WZ] + [("tilt", q) for q in TILTED]
         for i in range(n_rand):
             kind, rot = combos[i % len(combos)] if i < 2 * len(combos) else rng.choice(combos)
@@ -782,8 +788,8 @@ class FrameCorr(Corr):
 
     def cases(self, tier, rng):
         out = []
-        n_rand = 60 if tier == "quick" else 320
-        npts = 160 if tier == "quick" else 600
+        n_rand = 60 if tier == "quick" else 256
+        npts = 160 if tier == "quick" else 500
         for i in range(n_rand):
             cfg = {"s0": rng.choice([1.0, 1.0, 1.25, 0.75]), "s100": rng.choice([1.0, 1.5, 2.0, 3.0]), "min_points": 1}
             n_obj = rng.choice([0, 1, 2, 3, 4, 6]) if i % 10 else 0
@@ -879,7 +885,11 @@ def _manager(s0, s100, min_points):
             result_root_directory=os.path.join(root, f"r{len(_MANAGERS)}"),
             evaluation_config_dict={"evaluation_task": "sensing", "target_uuids": None, "box_scale_0m": s0, "box_scale_100m": s100,
                                     "min_points_threshold": min_points}, load_raw_data=False)
-        _MANAGERS[key] = SensingEvaluationManager(cfg)
+        import contextlib
+        import io
+
+        with contextlib.redirect_stderr(io.StringIO()):      # the dataset loader draws tqdm progress bars
+            _MANAGERS[key] = SensingEvaluationManager(cfg)
         shutil.rmtree(root, ignore_errors=True)
     return _MANAGERS[key]
 
@@ -892,8 +902,8 @@ class ManagerCorr(Corr):
 
     def cases(self, tier, rng):
         out = []
-        n_rand = 24 if tier == "quick" else 128
-        npts = 220 if tier == "quick" else 900
+        n_rand = 24 if tier == "quick" else 96
+        npts = 220 if tier == "quick" else 800
         for i in range(n_rand):
             cfg = {"s0": rng.choice([1.0, 1.25]), "s100": rng.choice([1.0, 2.0, 3.0]), "min_points": rng.choice([1, 2, 3])}
             gts = gen_scene(rng, rng.choice([0, 1, 2, 3, 5]), cfg)
@@ -1033,17 +1043,44 @@ class C12(Prop):
     design_ref = "DESIGN.md section 4, C12"
     technique = ("Rocq proof about an executable model of crop_pointcloud (per-edge uint8 winding counter), box corners and the sensing frame "
                  "evaluation; in-Coq correspondence with the real code on lattice clouds; exact-Fraction slab / crossing-number oracles")
-    level_text = ""
-    level_note = ""
-    rule = ("crop: lattice prisms (templates + star polygons, CW/CCW, 2-5 columns) with clouds >= 1/8 from every edge; box: every rational yaw in "
-            "all quadrants, axis-aligned and tilted quaternions, fixed and distance-dependent scales; frame/manager: scenes with 0-6 objects; "
-            "non-trivial = both inside and outside rows (crop, box), at least two result classes (frame), rows in areas (manager)")
-    assumptions = []
-    not_proved = []
+    level_text = ("Theorems (Props/C12.v, closed under the global context) for ALL rationals / clouds / object lists: the division-based edge test is "
+                  "the sign of a cross product; the uint8 counter is the sum of edge contributions mod 256; inside/outside selections partition "
+                  "every cloud for any polygon, any vertex heights, 2, 3 or more columns; for a yaw-only box with ANY non-zero rational direction "
+                  "(all four quadrants and the axis-aligned directions), any centre, size and scale k > 0, a row strictly inside the footprint scaled "
+                  "by k and within [z-h/2, z+h/2] is selected and a row strictly outside is not (interior AND exterior proved, no sign case left); "
+                  "k <= k' never removes an inside row (all rows, boundary included); every ground truth lands in exactly one of success / fail / "
+                  "warning (warning iff Visibility.NONE, tested first; success iff count >= threshold); non-detection failures are exactly the rows of "
+                  "the given clouds that are inside no scaled box, empty remainders dropped, second crop idempotent, manager arrays = inside the area "
+                  "and inside no box. The model is run against crop_pointcloud, DynamicObject.get_corners/crop_pointcloud/"
+                  "get_inside_pointcloud_num/point_exist, get_bbox_scale, SensingFrameResult.evaluate_frame and "
+                  "SensingEvaluationManager.crop_pointcloud/add_frame_result on every run; returned rows are compared as exact index lists in Coq.")
+    level_note = ("Trusted: Coq kernel + vm_compute; hand-written models tied by this run's correspondence; exact Fraction encoding of floats. "
+                  "Model boxes carry the rational rotation the quaternion approximates (corners compared within 1e-9); clouds are lattice points "
+                  ">= 1/8 from every face so binary64 rounding cannot flip a decision; distances are rational (lattice positions with square norm). "
+                  "General non-detection prisms are validated against an independent crossing-number evaluator in Python only.")
+    rule = ("crop: lattice prisms (8 templates + star polygons, CW/CCW, rotated start vertex, 2-5 columns, non-constant vertex heights, multiply-wound "
+            "and self-intersecting rings, malformed inputs) with clouds >= 1/8 from every edge incl. rows level with vertices; box: 22 rational yaws in "
+            "all quadrants + axis-aligned + 6 tilted quaternions, fixed and distance-dependent scales, second scale k+dk for monotonicity; "
+            "frame/manager: scenes with 0-6 objects incl. overlapping, visibility values and aliases, thresholds hit with equality; "
+            "non-trivial = both inside and outside rows (crop, box), at least two result classes (frame), rows in areas and objects (manager)")
+    assumptions = [
+        "finite coordinates (NaN/inf outside the model); numpy arrays are rectangular",
+        "prisms as documented in crop_pointcloud: lower plane has the same xy shape as the upper plane (the closing-edge test reads area[n])",
+        "fewer than 256 windings around a row (uint8 counter)",
+        "rectangle theorems: yaw-only orientation; rows exactly on the footprint boundary follow the half-open edge rule and are not specified",
+        "float rounding in pyquaternion/numpy is covered by the 1/8 decision margin of the generated clouds and the 1e-9 tolerance on corners/scales",
+    ]
+    not_proved = [
+        "geometric exactness for general (non-convex) prisms: crossing-number oracle in Python only",
+        "rows exactly on a box face or edge",
+        "roll/pitch: the code crops a vertical prism over the projected footprint with z = centre +- h/2, which is not the tilted 3-D box "
+        "(model and oracle follow the code; see report)",
+        "nearest_point of DynamicObjectWithSensingResult; target_uuids filtering in add_frame_result (C10)",
+    ]
 
     def correspondences(self):
         return [CropCorr(), BoxCorr(), FrameCorr(), ManagerCorr()]
 
 
-READY = False
+READY = True
 PROP = C12()
